@@ -60,4 +60,25 @@ def popFloatList (r : Toks) : Option (List Float × Toks) := do
 
 def fmtFloats (xs : List Float) : String := " ".intercalate (xs.map fmtFloat)
 
+def popBool : Toks → Option (Bool × Toks)
+  | "1" :: r => some (true, r)
+  | "0" :: r => some (false, r)
+  | _ => none
+
+def popInts : Nat → Toks → Option (List Int × Toks)
+  | 0, r => some ([], r)
+  | n + 1, r => do
+    let (x, r) ← popInt r
+    let (xs, r) ← popInts n r
+    pure (x :: xs, r)
+
+/-- length-prefixed int list -/
+def popIntList (r : Toks) : Option (List Int × Toks) := do
+  let (n, r) ← popNat r
+  popInts n r
+
+/-- length-prefixed lists -/
+def fmtFloatList (xs : List Float) : String := " ".intercalate (toString xs.length :: xs.map fmtFloat)
+def fmtIntList (xs : List Int) : String := " ".intercalate (toString xs.length :: xs.map toString)
+
 end Hermes.Proto
